@@ -293,6 +293,8 @@ pub fn global() -> &'static Sim {
 }
 
 static SITE_COUNTER: AtomicU64 = AtomicU64::new(0);
+/// calls of `block_on` that were driven by a multi-threaded runtime
+pub static MULTI_THREAD_RUNS: AtomicU64 = AtomicU64::new(0);
 
 /// A fresh four-character site id (base 36, first character a letter).
 pub fn fresh_site() -> String {
@@ -401,8 +403,18 @@ pub fn rfc3339(epoch_ms: i64, fractional: bool) -> String {
     }
 }
 
-/// Current-thread tokio runtime, optionally with the clock paused (virtual time).
+/// Current-thread tokio runtime, optionally with the clock paused (virtual time).  Where the
+/// caller stands is part of the workload: without a paused clock, every eighth call on a thread is
+/// driven by a multi-threaded runtime (two workers) instead.
 pub fn block_on<F: std::future::Future>(paused: bool, f: F) -> F::Output {
+    thread_local! { static CALLS: std::cell::Cell<u64> = const { std::cell::Cell::new(0) }; }
+    let k = CALLS.with(|c| { let v = c.get(); c.set(v + 1); v });
+    if !paused && k % 8 == 5 {
+        if let Ok(rt) = tokio::runtime::Builder::new_multi_thread().worker_threads(2).enable_all().build() {
+            MULTI_THREAD_RUNS.fetch_add(1, Ordering::Relaxed);
+            return rt.block_on(f);
+        }
+    }
     let rt = tokio::runtime::Builder::new_current_thread()
         .enable_all()
         .start_paused(paused)
